@@ -200,12 +200,11 @@ theorem spell_eq_escape_payload (v : XVal) (h : valOk v = true) : v.spell = esca
   | esc p => simp [XVal.spell, XVal.payload, xmlEscape_eq]
   | lit w => simp [XVal.spell, XVal.payload, escape_of_safeB w (by simpa [valOk] using h)]
 
-/-- Attributes a start tag may carry after `as`: legal fresh names, escaped values, nothing raw. -/
+/-- Attributes a start tag may carry after `as`: legal fresh names, escaped values. -/
 def attrsGood (as : List (Bytes × Bytes)) : List XAttr → Bool
   | [] => true
   | .mk n v :: r =>
     xmlLegalName n && valOk v && !(as.any fun a => a.1 == n) && attrsGood (as ++ [(n, v.payload)]) r
-  | .raw _ :: _ => false
 
 theorem attrPairs_cons_mk (n : Bytes) (v : XVal) (r : List XAttr) :
     attrPairs (.mk n v :: r) = (n, v.payload) :: attrPairs r := by
@@ -235,7 +234,6 @@ theorem lex_attrs (n : Bytes) (l : List XAttr) (as : List (Bytes × Bytes)) (out
   | nil => simp [spellXAttrs, xlexLoop, attrPairs]
   | cons a r ih =>
     cases a with
-    | raw bs => simp [attrsGood] at h
     | mk an v =>
       simp only [attrsGood, Bool.and_eq_true, Bool.not_eq_true'] at h
       obtain ⟨⟨⟨h1, h2⟩, h3⟩, h4⟩ := h
